@@ -68,11 +68,22 @@ package remotesrv
 //@   at call Open: assert verif_sameslice(arg2:[]byte, verif_ghost.uDecPrev) && verif_sameslice(arg3:[]byte, verif_ghost.uDecLast)
 //@   at call Open: assert len(arg4:[]byte) == len(nbfStr)+1+len(expStr)
 //@   ensures  result1 == nil ==> result0 != nil && verif_ghost.uOpened
-//@   also_modifies verif_ghost.uMs, verif_ghost.uBefore, verif_ghost.uBeforeMs, verif_ghost.uAfter, verif_ghost.uAfterMs, verif_ghost.uOpened, verif_ghost.uDecPrev, verif_ghost.uDecLast
+// the clear-text path is bound to the sealed one: a URL is accepted only after its path, stripped of the fixed
+// prefix, compared equal to the escaped path of the request that was sealed (not merely a suffix of it)
+//@   ensures  result1 == nil ==> verif_ghost.uTrimS == u.Path && verif_ghost.uTrimP == "/single_symmetric_key_sealed_request/" && verif_ghost.uTrimR == verif_ghost.uEsc
+//@   also_modifies verif_ghost.uTrimS, verif_ghost.uTrimP, verif_ghost.uTrimR, verif_ghost.uEsc, verif_ghost.uMs, verif_ghost.uBefore, verif_ghost.uBeforeMs, verif_ghost.uAfter, verif_ghost.uAfterMs, verif_ghost.uOpened, verif_ghost.uDecPrev, verif_ghost.uDecLast
 
 //@ extern (github.com/dolthub/dolt/go/libraries/doltcore/remotesrv.Sealer).Unseal as verif_x_Unseal
 //@   modifies nothing
 //@   ghost_set verif_ghost.uUnsealOK = (err == nil)
+//@ extern strings.TrimPrefix as verif_x_TrimPrefix
+//@   modifies nothing
+//@   ghost_set verif_ghost.uTrimS = s
+//@   ghost_set verif_ghost.uTrimP = p
+//@   ghost_set verif_ghost.uTrimR = r
+//@ extern (*net/url.URL).EscapedPath as verif_x_EscapedPath
+//@   modifies nothing
+//@   ghost_set verif_ghost.uEsc = r
 //@ extern strings.HasPrefix as verif_x_HasPrefix
 //@   modifies nothing
 //@   ensures b == verif_hasprefix(s, p)
